@@ -207,6 +207,30 @@ PREV = r"Option::expect\(OutputValue::value\(Option::unwrap\(EvalContext::get\(c
 STEP = re.compile(r"^(i64::saturating_add|i64::wrapping_add)\(%s, 1\)$|^AddWithOverflow\(%s, 1\)\.0$|^Add\(%s, 1\)$" % (PREV, PREV, PREV))
 
 
+def end_is_final(chk, P, prefix=""):
+    """Once the interpreter has returned Ok(None) it keeps doing so without any effect: the only
+    Ok(None) exit is in the fetch state on stmt_iter.next() == None, with no other effect and no state
+    change, and the statement iterator is a plain (fused) slice iterator.  Used by C02 (nothing is sent
+    after None) as well as by C01."""
+    b = P.body(NWC)
+    if b is None:
+        chk.fail("ANCHOR", prefix + "anchor:next_with_context", "interpreter not found")
+        return False
+    A = Automaton(P, b)
+    if A.disp is None or not A.edges:
+        chk.fail("ANCHOR", prefix + "anchor:state-dispatch", "state dispatch not found")
+        return False
+    R = A.roles()
+    nones = [e for e in A.edges if e["shape"] == "None" or (e["ret"] or "").startswith("Result::Ok{0: Option::None")]
+    good = len(nones) == 1 and R.get(nones[0]["state"]) == "fetch" and nones[0]["effects"] == [("next", ("self.stmt_iter",))] and nones[0]["next"] is None and ("variant", "Iterator::next(self.stmt_iter)", ("None",)) in nones[0]["guards"]
+    ok = chk.require(good, "AUT", prefix + "AUT:1:Ok(None)-only-when-block-exhausted", "the only Ok(None) exit: fetch state, next() == None, no effect, no state change (so None is sticky)",
+                     "Ok(None) exits: %s" % [(R.get(e["state"]), e["effects"], e["guards"][:3]) for e in nones])
+    adt = P.f.adts.get("stmt::StmtIterator")
+    ty = dict((f["name"], f["ty"]) for f in adt["variants"][0]["fields"]).get("stmt_iter", "") if adt else ""
+    ok &= bool(chk.require(re.fullmatch(r"std::slice::Iter<'a, stmt::Stmt>", ty) is not None, "TYPE", prefix + "TYPE:StmtIterator.stmt_iter-is-a-slice-iterator", "slice::Iter is fused: None stays None", "StmtIterator.stmt_iter has type %s" % ty))
+    return ok
+
+
 def run(chk, ctx):
     P = Prog(ctx["facts"])
     from . import eqrules
